@@ -20,6 +20,7 @@
  Ra alias mutation: a local that still names a list of another object (not copied) is never mutated in place.
  Rn arg roles     : a variable named like a parameter of the callee is handed to that parameter (no exchanged roles).
  R8 inputs        : spectrum map layout (shared with C15-R1); slots needed = ceil(spacing/slot width) x ceil(bandwidth/bit rate).
+ R9 scratch faithful: the scratch map is built with the range, grid and guard band of the real map.
 """
 import ast
 
@@ -764,6 +765,30 @@ def r8_inputs(ctx):
     ctx.need('R8.slots-needed', 1)
 
 
+def r9_scratch_faithful(ctx):
+    """R9: the scratch spectrum map a path is probed on is built like the real ones: same slot range, grid AND guard band as the
+    first OMS of the path (update_spectrum(.., guardband=<that OMS's guardband>, existing_spectrum=<the merged bitmap>))"""
+    repo = ctx.repo
+    f = repo.func(MOD, 'aggregate_oms_bitmap')
+    us = calls_to(f, {'update_spectrum'})
+    ok = len(us) == 1
+    det = ''
+    if ok:
+        from .common import named_args
+        a = named_args(us[0])
+        det = ast.unparse(us[0])[:160]
+        gb, ex = a.get('guardband'), a.get('existing_spectrum')
+        ok = gb is not None and isinstance(gb, ast.Attribute) and gb.attr == 'guardband' and ex is not None and isinstance(ex, ast.Name)
+        if ok:
+            # the guard band comes from the same spectrum object whose n_min / n_max give the range
+            rng = {ast.unparse(x.value) for x in ast.walk(f.node) if isinstance(x, ast.Attribute) and x.attr in ('n_min', 'n_max')}
+            ok = ast.unparse(gb.value) in rng
+    ctx.check('R9.scratch-faithful', site(f, us[0]) if us else site(f), ok, key(f, 'guardband'),
+              'the scratch map of a path is not built with the guard band of the real spectrum map: slots inside a configured guard band '
+              'would be offered to requests', det)
+    ctx.need('R9.scratch-faithful', 1)
+
+
 from ..memo import rule_for as _memo_rule
 
 RULES_MEMO = ('Rm.memo', _memo_rule('C14', 'spectrum availability computed for another state would be reused'))
@@ -773,4 +798,4 @@ from ..presence import rule_for as _presence_rule
 
 RULES_PRESENCE = ('Rp.presence', _presence_rule('C14', 'a user-fixed slot N = 0 (the grid anchor) would be treated as not given and placed elsewhere'))
 
-RULES = [('R7.window', r7_window), ('R6.merge-probe', r6_merge_and_probe), ('R1.fresh', r1_fresh), ('R2.commit', r2_commit), ('R4.slots', r4_slots), ('R5.first-fit', r5_first_fit), RULES_MEMO, RULES_PRESENCE, ('Re.for-each', re_foreach), ('Ra.alias-mutation', ra_alias), ('Rn.arg-roles', rn_arg_roles), ('R8.inputs', r8_inputs)]
+RULES = [('R7.window', r7_window), ('R6.merge-probe', r6_merge_and_probe), ('R1.fresh', r1_fresh), ('R2.commit', r2_commit), ('R4.slots', r4_slots), ('R5.first-fit', r5_first_fit), RULES_MEMO, RULES_PRESENCE, ('Re.for-each', re_foreach), ('Ra.alias-mutation', ra_alias), ('Rn.arg-roles', rn_arg_roles), ('R8.inputs', r8_inputs), ('R9.scratch-faithful', r9_scratch_faithful)]
